@@ -1,7 +1,223 @@
-//! TLS matrix (C12): added below.
+//! TLS matrix (C12): both clients against an in-process rustls server with certificates made at run time
+//! by the `openssl` CLI.  Compiled only in the `native-tls` / `rustls` feature builds of the harness.
 use crate::exec::CaseResult;
 use crate::text::SExp;
 
+#[cfg(not(feature = "tlsmatrix"))]
 pub fn exec_tls(_prop: &str, _op: &str, _line: &str, _args: &[SExp]) -> Option<CaseResult> {
     None
+}
+
+#[cfg(not(feature = "tlsmatrix"))]
+pub fn backend() -> &'static str {
+    "none"
+}
+
+#[cfg(feature = "tlsmatrix")]
+pub use imp::*;
+
+#[cfg(feature = "tlsmatrix")]
+mod imp {
+    use std::io::{Read, Write};
+    use std::net::TcpListener;
+    use std::path::{Path, PathBuf};
+    use std::process::Command;
+    use std::sync::atomic::{AtomicBool, AtomicUsize, Ordering};
+    use std::sync::{Arc, OnceLock};
+    use std::time::Duration;
+
+    use ipp::prelude::*;
+    use rustls::pki_types::{CertificateDer, PrivateKeyDer, PrivatePkcs8KeyDer};
+
+    use crate::exec::CaseResult;
+    use crate::httpd::{read_request, write_reply, Reply};
+    use crate::text::SExp;
+
+    pub fn backend() -> &'static str {
+        if cfg!(feature = "native-tls") {
+            "native-tls"
+        } else {
+            "rustls"
+        }
+    }
+
+    fn run(cmd: &mut Command) -> bool {
+        cmd.output().map(|o| o.status.success()).unwrap_or(false)
+    }
+
+    fn openssl() -> Command {
+        Command::new("openssl")
+    }
+
+    /// certificates for the matrix, made once per process in a scratch directory
+    pub fn pki() -> &'static PathBuf {
+        static DIR: OnceLock<PathBuf> = OnceLock::new();
+        DIR.get_or_init(|| {
+            let d = std::env::temp_dir().join(format!("ippverif-pki-{}", std::process::id()));
+            let _ = std::fs::remove_dir_all(&d);
+            std::fs::create_dir_all(&d).unwrap();
+            let p = |n: &str| d.join(n).to_string_lossy().to_string();
+            let ec = ["-newkey", "ec", "-pkeyopt", "ec_paramgen_curve:prime256v1", "-nodes"];
+            for ca in ["ca", "ca2", "ca3"] {
+                assert!(run(openssl().args(["req", "-x509"]).args(ec).args(["-keyout", &p(&format!("{}.key", ca)), "-out", &p(&format!("{}.pem", ca)), "-days", "3650", "-subj", &format!("/CN=Verif {} Root", ca),
+                    "-addext", "basicConstraints=critical,CA:TRUE", "-addext", "keyUsage=critical,keyCertSign,cRLSign"])), "openssl CA");
+                assert!(run(openssl().args(["x509", "-in", &p(&format!("{}.pem", ca)), "-outform", "DER", "-out", &p(&format!("{}.der", ca))])));
+            }
+            assert!(run(openssl().args(["req"]).args(ec).args(["-keyout", &p("srv.key"), "-out", &p("srv.csr"), "-subj", "/CN=localhost"])), "openssl csr");
+            assert!(run(openssl().args(["pkcs8", "-topk8", "-nocrypt", "-in", &p("srv.key"), "-outform", "DER", "-out", &p("srv.key.der")])));
+            let ext = |name: &str, san: &str| {
+                std::fs::write(d.join(name), format!("subjectAltName={}\nbasicConstraints=CA:FALSE\nkeyUsage=digitalSignature,keyEncipherment\nextendedKeyUsage=serverAuth\n", san)).unwrap();
+            };
+            ext("good.ext", "DNS:localhost,IP:127.0.0.1");
+            ext("wrong.ext", "DNS:printer.other.example");
+            let sign = |out: &str, ca: &str, extf: &str, dates: &[&str]| {
+                assert!(run(openssl().args(["x509", "-req", "-in", &p("srv.csr"), "-CA", &p(&format!("{}.pem", ca)), "-CAkey", &p(&format!("{}.key", ca)), "-CAcreateserial",
+                    "-out", &p(&format!("{}.pem", out)), "-extfile", &p(extf)]).args(dates)), "openssl sign {}", out);
+                assert!(run(openssl().args(["x509", "-in", &p(&format!("{}.pem", out)), "-outform", "DER", "-out", &p(&format!("{}.der", out))])));
+            };
+            sign("valid", "ca", "good.ext", &["-days", "365"]);
+            sign("wrongname", "ca", "wrong.ext", &["-days", "365"]);
+            sign("expired", "ca", "good.ext", &["-not_before", "20200101000000Z", "-not_after", "20210101000000Z"]);
+            sign("unknownca", "ca2", "good.ext", &["-days", "365"]);
+            assert!(run(openssl().args(["req", "-x509", "-key", &p("srv.key"), "-out", &p("selfsigned.pem"), "-days", "365", "-subj", "/CN=localhost",
+                "-addext", "subjectAltName=DNS:localhost,IP:127.0.0.1"])), "openssl self-signed");
+            assert!(run(openssl().args(["x509", "-in", &p("selfsigned.pem"), "-outform", "DER", "-out", &p("selfsigned.der")])));
+            d
+        })
+    }
+
+    struct Counting<S> {
+        inner: S,
+        app_bytes: Arc<AtomicUsize>,
+    }
+    impl<S: Read> Read for Counting<S> {
+        fn read(&mut self, buf: &mut [u8]) -> std::io::Result<usize> {
+            let n = self.inner.read(buf)?;
+            self.app_bytes.fetch_add(n, Ordering::SeqCst);
+            Ok(n)
+        }
+    }
+    impl<S: Write> Write for Counting<S> {
+        fn write(&mut self, buf: &[u8]) -> std::io::Result<usize> {
+            self.inner.write(buf)
+        }
+        fn flush(&mut self) -> std::io::Result<()> {
+            self.inner.flush()
+        }
+    }
+
+    /// a TLS server presenting `cert`; returns (port, application bytes received after the handshake, stop flag, join handle)
+    fn tls_server(dir: &Path, cert: &str) -> (u16, Arc<AtomicUsize>, Arc<AtomicBool>, std::thread::JoinHandle<()>) {
+        let cert_der = std::fs::read(dir.join(format!("{}.der", cert))).unwrap();
+        let key_der = std::fs::read(dir.join("srv.key.der")).unwrap();
+        let cfg = rustls::ServerConfig::builder_with_provider(Arc::new(rustls::crypto::ring::default_provider()))
+            .with_safe_default_protocol_versions()
+            .unwrap()
+            .with_no_client_auth()
+            .with_single_cert(vec![CertificateDer::from(cert_der)], PrivateKeyDer::Pkcs8(PrivatePkcs8KeyDer::from(key_der)))
+            .unwrap();
+        let cfg = Arc::new(cfg);
+        let listener = TcpListener::bind("127.0.0.1:0").unwrap();
+        let port = listener.local_addr().unwrap().port();
+        listener.set_nonblocking(true).unwrap();
+        let app = Arc::new(AtomicUsize::new(0));
+        let stop = Arc::new(AtomicBool::new(false));
+        let (app2, stop2) = (app.clone(), stop.clone());
+        let h = std::thread::spawn(move || {
+            let mut workers = vec![];
+            while !stop2.load(Ordering::SeqCst) {
+                match listener.accept() {
+                    Ok((tcp, _)) => {
+                        let cfg = cfg.clone();
+                        let app3 = app2.clone();
+                        workers.push(std::thread::spawn(move || {
+                            let _ = tcp.set_nonblocking(false);
+                            let _ = tcp.set_read_timeout(Some(Duration::from_secs(10)));
+                            let _ = tcp.set_write_timeout(Some(Duration::from_secs(10)));
+                            let conn = match rustls::ServerConnection::new(cfg) {
+                                Ok(c) => c,
+                                Err(_) => return,
+                            };
+                            let tls = rustls::StreamOwned::new(conn, tcp);
+                            let mut s = Counting { inner: tls, app_bytes: app3 };
+                            if let Some(_req) = read_request(&mut s) {
+                                let resp = IppRequestResponse::new_response(IppVersion::v1_1(), StatusCode::SuccessfulOk, 1);
+                                write_reply(&mut s, &Reply::ok(resp.to_bytes().to_vec()));
+                                s.inner.conn.send_close_notify();
+                                let _ = s.inner.flush();
+                            }
+                        }));
+                    }
+                    Err(_) => std::thread::sleep(Duration::from_micros(300)),
+                }
+            }
+            for w in workers {
+                let _ = w.join();
+            }
+        });
+        (port, app, stop, h)
+    }
+
+    pub fn exec_tls(_prop: &str, op: &str, line: &str, args: &[SExp]) -> Option<CaseResult> {
+        if op != "tlscase" {
+            return None;
+        }
+        let a = |i: usize| args.get(i).and_then(|x| x.atom()).unwrap_or("").to_string();
+        let (be, client, ignore, root, cert) = (a(0), a(1), a(2), a(3), a(4));
+        if be != backend() {
+            return Some(CaseResult { line: line.into(), result: "(other-backend)".into(), oracle: None, class: "skipped".into() });
+        }
+        let dir = pki().clone();
+        let (port, app, stop, handle) = tls_server(&dir, &cert);
+        let uri: Uri = format!("ipps://localhost:{}/ipp/print", port).parse().unwrap();
+        let root_data: Option<Vec<u8>> = match root.as_str() {
+            "none" => None,
+            "pem" => Some(std::fs::read(dir.join("ca.pem")).unwrap()),
+            "der" => Some(std::fs::read(dir.join("ca.der")).unwrap()),
+            "unrelated" => Some(std::fs::read(dir.join("ca3.pem")).unwrap()),
+            _ => None,
+        };
+        let req = IppRequestResponse::new(IppVersion::v1_1(), Operation::GetPrinterAttributes, Some(uri.clone()));
+        macro_rules! configure {
+            ($b:expr) => {{
+                let mut b = $b.request_timeout(Duration::from_secs(10));
+                match ignore.as_str() {
+                    "true" => b = b.ignore_tls_errors(true),
+                    "false" => b = b.ignore_tls_errors(false),
+                    _ => {}
+                }
+                if let Some(d) = &root_data {
+                    b = b.ca_cert(d);
+                }
+                b.build()
+            }};
+        }
+        let accepted = match client.as_str() {
+            "blocking" => configure!(IppClient::builder(uri.clone())).send(req).is_ok(),
+            "async" => {
+                let c = configure!(AsyncIppClient::builder(uri.clone()));
+                crate::exec8::runtime().block_on(async move { c.send(req).await.is_ok() })
+            }
+            _ => false,
+        };
+        stop.store(true, Ordering::SeqCst);
+        let _ = handle.join();
+        let bytes = app.load(Ordering::SeqCst);
+        let should = ignore == "true" || (cert == "valid" && (root == "pem" || root == "der"));
+        let mut oracle = None;
+        if accepted != should {
+            oracle = Some(format!(
+                "{} client on {}: server certificate `{}`, ignore_tls_errors {}, extra root {}: the exchange was {} but must be {}",
+                client, be, cert, ignore, root, if accepted { "accepted" } else { "rejected" }, if should { "accepted" } else { "rejected" }
+            ));
+        } else if !accepted && bytes > 0 {
+            oracle = Some(format!("{} client on {}: the exchange was rejected but {} bytes of the request reached the server application", client, be, bytes));
+        }
+        Some(CaseResult {
+            line: line.into(),
+            result: format!("{} app={}", if accepted { "accepted" } else { "rejected" }, if bytes > 0 { "+" } else { "0" }),
+            oracle,
+            class: format!("{}-{}-{}", be, client, if accepted { "accepted" } else { "rejected" }),
+        })
+    }
 }
